@@ -275,6 +275,39 @@ func generate(key echx.KeyPair, b base, thorough bool) []fault {
 			}
 		}
 	}
+	// F9d malformed syntax inside the extensions the server interprets, in the outer hello and inside the (authentic) inner hello
+	{
+		raw := func(t uint16, d ...byte) tlsref.Ext { return tlsref.Ext{Type: t, Data: d} }
+		bad := []struct {
+			name string
+			ext  tlsref.Ext
+		}{
+			{"sni-empty-data", raw(0)}, {"sni-list-short", raw(0, 0, 2, 0, 0)}, {"sni-truncated", raw(0, 0, 9, 0, 0, 9, 'a')},
+			{"alpn-empty-data", raw(16)}, {"alpn-truncated", raw(16, 0, 4, 3, 'h', '2')}, {"alpn-list-short", raw(16, 0, 1)},
+			{"sv-empty-data", raw(43)}, {"sv-odd", raw(43, 3, 3, 4, 3)}, {"sv-odd-after-13", raw(43, 5, 3, 4, 3, 3, 3)}, {"sv-overlong", raw(43, 9, 3, 4)},
+			{"ech-empty-data", raw(0xfe0d)}, {"ech-outer-cut3", raw(0xfe0d, 0, 0, 1)}, {"ech-outer-cut6", raw(0xfe0d, 0, 0, 1, 0, 1, 42)},
+		}
+		for _, bx := range bad {
+			// outer: the malformed extension replaces / is added to a plain hello (with and without keys)
+			h := plain.Clone()
+			h.Exts = slices.DeleteFunc(h.Exts, func(e tlsref.Ext) bool { return e.Type == bx.ext.Type })
+			h.Exts = append(h.Exts, bx.ext)
+			add("outer-malformed-"+bx.name, "", []string{DE, IP}, h.Record())
+			f := add("outer-malformed-"+bx.name+"-nokeys", "", []string{DE, IP}, h.Record())
+			f.noKeys = true
+			// inner: sealed, so that the inner parser meets it
+			if bx.ext.Type == 0xfe0d {
+				continue
+			}
+			s9 := s
+			s9.EncInner = slices.DeleteFunc(slices.Clone(s.EncInner), func(e tlsref.Ext) bool { return e.Type == bx.ext.Type })
+			s9.EncInner = append(s9.EncInner, bx.ext)
+			if bx.ext.Type != tlsref.ExtSupportedVersions && b.Compress {
+				// keep TLS 1.3 offered so that only the malformed extension is at fault
+			}
+			add("inner-malformed-"+bx.name, "", []string{DE, IP}, s9.Build().Outer.Record())
+		}
+	}
 	// F10 first record is not a ClientHello
 	for _, ct := range []byte{0, 20, 21, 23, 24, 255} {
 		add("first-record-not-handshake", fmt.Sprint(ct), []string{UM}, tlsref.Record(ct, 0x0303, msg))
